@@ -206,6 +206,22 @@ func c10Run(c *core.Ctx) {
 		cs.Ver = "5.6+7.4"
 		c10One(c, cs)
 	}
+	// postfix chains: the PHP 5 grammar assembles them iteratively (object_property lists, method_or_not, dereference
+	// lists), the PHP 7 grammar by left recursion; every chain of <= 4 (thorough 5) operations that both automata accept
+	// and that is not sensitive to the uniform variable syntax must give the same tree
+	n := 4
+	if c.Thorough() {
+		n = 5
+	}
+	for _, src := range corpus.ChainPrograms(n) {
+		if !c.Next() {
+			continue
+		}
+		cs := mkCase(src, nil, "postfix chain")
+		cs.Ver = "5.6+7.4"
+		c.Stat("chains", 1)
+		c10One(c, cs)
+	}
 }
 
 func init() {
